@@ -559,6 +559,13 @@ func (w *watch) watch(fsw *fsnotify.Watcher, m *sync.Mutex, refresh func() error
 			}
 
 			m.Lock()
+			if watch != w.watcher || w.tracked == nil {
+				// A late event of a watcher which was stopped or replaced by a
+				// reconfiguration while we were waiting for the lock. Our
+				// dirErrors is not the one of the Cache any more.
+				m.Unlock()
+				return
+			}
 			if event.Op == fsnotify.Remove && w.tracked[event.Name] {
 				w.update(dirErrors, event.Name)
 			} else {
